@@ -1,17 +1,24 @@
 (* C04: crash-free, terminating, offset-sane.
-   PARTIAL.  Proved: the safety rule for the loop driver (any parser whose iteration keeps its
-   invariant never panics, never loops without progress, and returns offsets in range), its
-   instances - on every buffer, every start offset inside it, every object state satisfying the
-   stated invariant (fresh objects do; every suspended object does again, so every chunk schedule is
-   covered) - for Call-ID, unsigned-integer (Expires), Content-Length, CSeq, the first line, token
-   parameters (every flag set), SkipQuoted and the 23-state name-addr automaton (From / To /
-   Contact / PAI values, every header kind): no panic, no stuck loop, returned offset inside the
-   buffer, every reported field dereferenceable against the buffer; ParseURI never panics on any
-   byte string (and its error positions lie inside the input); totality of the look-ups incl. the
-   empty name; relocation never corrupts.  Not proved: the instances for the multi-value lists, the
-   header line / block and the message, which the correspondence + crash oracle cover.
+   PROVED for the model of every resumable parser up to ParseSIPMsg; PARTIAL for the rest (below).
+   Route: the safety rule for the loop driver (any parser whose iteration keeps its invariant never
+   panics, never loops without progress, and returns offsets in range), then its instances - on
+   every buffer, every start offset inside it, every object state satisfying the stated invariant
+   (fresh and Reset objects do; every suspended object does again, so every chunk schedule is
+   covered: C04_message_every_schedule) - for Call-ID, unsigned-integer (Expires), Content-Length,
+   CSeq, the first line, token parameters (every flag set), SkipQuoted, the 23-state name-addr
+   automaton (From / To / Contact / PAI values, every header kind), the Contact and PAI multi-value
+   lists (every capacity), the header line with its eight value parsers, the header block (every
+   header capacity) and the whole message (every flag set): no panic (no slice or index out of
+   range, no BUG panic), no stuck loop, returned offset inside the buffer and not before the start
+   offset on EOk / EMore.  The invariants are "every saved offset lies at or before the current
+   position" plus, for name-addr, three content facts the back-tracking arithmetic needs.
+   ParseURI never panics on any byte string (and its error positions lie inside the input);
+   totality of the look-ups incl. the empty name; relocation never corrupts.
+   Not proved: the instances for the URI parameter / URI header lists and the stateless helpers
+   called outside a message parse; that every field of a *message* is dereferenceable (proved for
+   the leaves only; C05 covers it by oracle); these the correspondence + crash oracle cover.
    Concurrency: model functions are pure; data races are runtime behaviour outside the model. *)
-From Sipsp Require Import Harness RunLemmas Safe SafeLeaf SafeMore Classify URIOffsets URIViews URILossless.
+From Sipsp Require Import Harness RunLemmas Safe SafeLeaf SafeMore SafeMsg Resume Classify URIOffsets URIViews URILossless.
 Theorem C04_safety_rule : forall (St : Type) (iter : list byte -> list byte -> N -> St -> ires St)
   (P : list byte -> list byte -> N -> St -> Prop) (Q : list byte -> list byte -> N -> N -> err -> St -> Prop),
   (forall pre rest i s, P pre rest i s ->
@@ -82,9 +89,69 @@ Theorem C04_name_addr : forall L h buf offs s, offs <= nnat (length buf) ->
   match parse_nameaddr h buf offs s with
   | Done o e s' => o <= nnat (length buf) /\ fb_bnd L (nnat (length buf)) s' /\
                    (e = EMore -> offs <= o /\ fb_inv L (rev (firstn (N.to_nat o) buf)) o s') /\
-                   (e = EOk \/ e = EMoreValues -> offs <= o)
+                   (e = EOk \/ e = EMoreValues -> offs <= o /\ fb_bnd L o s')
   | _ => False
   end.
 Proof. exact nameaddr_safe. Qed.
 Theorem C04_fresh_name_addr_satisfies_the_invariant : forall L pre o, L <= o -> fb_inv L pre o pfrom0.
 Proof. exact pfrom0_inv. Qed.
+
+(* the multi-value lists: any capacity (ct_wf / pa_wf only say the unused slots are untouched) *)
+Theorem C04_contacts : forall buf offs c, offs <= nnat (length buf) -> ct_inv (rev (firstn (N.to_nat offs) buf)) offs c ->
+  match parse_all_contacts buf offs c with
+  | Done o e c' => o <= nnat (length buf) /\ pf_end (ct_lasthval c') <= nnat (length buf) /\
+                   (e = EMore -> offs <= o /\ ct_inv (rev (firstn (N.to_nat o) buf)) o c') /\
+                   (e = EOk -> offs <= o /\ forall pre', ct_inv pre' o c')
+  | _ => False
+  end.
+Proof. exact contacts_safe. Qed.
+Theorem C04_pais : forall buf offs c, offs <= nnat (length buf) -> pa_inv (rev (firstn (N.to_nat offs) buf)) offs c ->
+  match parse_all_pais buf offs c with
+  | Done o e c' => o <= nnat (length buf) /\ pf_end (pa_lasthval c') <= nnat (length buf) /\
+                   (e = EMore -> offs <= o /\ pa_inv (rev (firstn (N.to_nat o) buf)) o c') /\
+                   (e = EOk -> offs <= o /\ forall pre', pa_inv pre' o c')
+  | _ => False
+  end.
+Proof. exact pais_safe. Qed.
+
+(* one header line, with or without the parsed-values object *)
+Theorem C04_header_line : forall buf offs st, offs <= nnat (length buf) -> HInv (rev (firstn (N.to_nat offs) buf)) offs st ->
+  match parse_hdrline buf offs st with
+  | Done o e st' => o <= nnat (length buf) /\
+                    (e = EMore -> offs <= o /\ HInv (rev (firstn (N.to_nat o) buf)) o st') /\
+                    (e = EOk -> offs <= o /\ match hx_pv st' with None => True | Some v' => PVq o v' end)
+  | _ => False
+  end.
+Proof. exact hdrline_safe. Qed.
+Theorem C04_header_block : forall buf offs st, offs <= nnat (length buf) -> HSInv (rev (firstn (N.to_nat offs) buf)) offs st ->
+  match parse_headers buf offs st with
+  | Done o e st' => o <= nnat (length buf) /\
+                    (e = EMore -> offs <= o /\ HSInv (rev (firstn (N.to_nat o) buf)) o st') /\ (e = EOk -> offs <= o)
+  | _ => False
+  end.
+Proof. exact headers_safe. Qed.
+
+(* the whole message: one call ... *)
+Theorem C04_message : forall flags buf offs m, offs <= nnat (length buf) -> MInv (rev (firstn (N.to_nat offs) buf)) offs m ->
+  match parse_sipmsg flags buf offs m with
+  | Done o e m' => o <= nnat (length buf) /\
+                   (e = EMore -> offs <= o /\ MInv (rev (firstn (N.to_nat o) buf)) o m') /\ (e = EOk -> offs <= o)
+  | _ => False
+  end.
+Proof. exact message_safe. Qed.
+(* ... every fresh object (any header / contact capacity) and every Reset object may start one ... *)
+Theorem C04_fresh_message_satisfies_the_invariant : forall L nh nc pre o,
+  MInv pre o (msg_init L (repeat hdr0 nh) (repeat pfrom0 nc)).
+Proof. exact MInv_init. Qed.
+Theorem C04_reset_message_satisfies_the_invariant : forall m pre o, MInv pre o (msg_reset m).
+Proof. exact MInv_reset. Qed.
+(* ... and every schedule of growing prefixes, each call resuming where the previous one suspended *)
+Theorem C04_message_every_schedule : forall flags b cuts k m, sorted_from (N.to_nat k) cuts -> k <= nnat (length b) ->
+  MInv (rev (firstn (N.to_nat k) b)) k m ->
+  match chunked (parse_sipmsg flags) b cuts k m with
+  | Done o e m' => o <= nnat (length b) /\ (e = EOk -> k <= o)
+  | _ => False
+  end.
+Proof. exact message_safe_chunked. Qed.
+Print Assumptions C04_message.
+Print Assumptions C04_message_every_schedule.
